@@ -161,6 +161,10 @@ Fixpoint dec_val (f : nat) (E : env) (t : ty) (bs : list N) {struct f} : res (va
             | None => Err EMal
             end
           else Err EMal
+      | TFuture =>
+          (* a value of a type from a future version of the format: its length, its number of references, its bytes; skipped,
+             and null to a reader with no expectation *)
+          do lr <- read_u64 bs; do nr <- read_u64 (snd lr); do sr <- take_bytes (fst lr) (snd nr); Ok (VNull, snd sr)
       | TServ _ => do pr <- dec_principal_bytes bs; Ok (VService (fst pr), snd pr)
       | TFunc _ _ _ =>
           match bs with
